@@ -230,14 +230,11 @@ fn inside_group(pattern: &str, regex_type: RegexType) -> String {
 /// Verification hooks (compiled only with `--cfg uutils_findutils_verif`).
 #[cfg(uutils_findutils_verif)]
 pub mod verif {
-    /// The pattern as it is written inside the group it is wrapped in.
-    pub fn inside_group(pattern: &str, extended: bool) -> String {
-        let regex_type = if extended {
-            super::RegexType::PosixExtended
-        } else {
-            super::RegexType::PosixBasic
-        };
-        super::inside_group(pattern, regex_type)
+    /// The pattern as it is written inside the group it is wrapped in, for the
+    /// syntax with that -regextype name.
+    pub fn inside_group(pattern: &str, regex_type: &str) -> Option<String> {
+        let regex_type = regex_type.parse::<super::RegexType>().ok()?;
+        Some(super::inside_group(pattern, regex_type))
     }
 }
 
